@@ -105,6 +105,9 @@ Script ==
     [] ScriptName = "s3" -> NC \o NC \o NOC \o <<"Oo">> \o NC \o NOC \o NJC \o <<"Hb">> \o NJC \o <<"Hb", "R">>
     \* out-of-order data left in the WBL (also across a restart) and in m-mapped chunks, no compaction (C04)
     [] ScriptName = "d1" -> NC \o NCC \o NOC \o NOC \o NC \o <<"R">> \o NOC \o NC \o NOC
+    \* shutdown with series that hold completed (m-mappable) head chunks besides the open one, twice; the harness runs
+    \* the workloads of this script with EnableMemorySnapshotOnShutdown (Init record: snap) and kills inside Close
+    [] ScriptName = "c1" -> NCC \o NCC \o NC \o <<"R">> \o NCC \o <<"R">>
     \* rollback of a new series, rejected append, commit
     [] ScriptName = "s4" -> NC \o NC \o <<"N", "Ax", "Ai", "C", "N", "Ai", "B", "R">> \o NC \o <<"N", "Ai", "B">> \o NJC \o <<"Hb">>
 
@@ -373,7 +376,7 @@ CInit ==
   /\ app = [a \in Apps |-> NoApp]
   /\ stored = [s \in Series |-> {}]
   /\ kfset = {} /\ kindv = "any" /\ nops = 0
-  /\ hist = <<[a |-> "Init", R |-> R, W |-> W, cap |-> OOOCap, seg |-> 2, bigs |-> SetToSeq(BigSeries)]>>
+  /\ hist = <<[a |-> "Init", R |-> R, W |-> W, cap |-> OOOCap, seg |-> 2, bigs |-> SetToSeq(BigSeries), snap |-> (ScriptName = "c1")]>>
   /\ wal = [first |-> 0, segs |-> <<EmptySeg>>]
   /\ wbl = IF WblOn THEN [first |-> 0, segs |-> <<EmptySeg>>] ELSE [first |-> 0, segs |-> <<>>]
   /\ cps = {} /\ cptmp = FALSE /\ blks = {} /\ tmpc = {} /\ tmpd = {} /\ rep = <<>>
